@@ -854,8 +854,14 @@ impl<'a> TypeEncoder<'a> {
     }
 
     pub fn import_resource(&self, state: &mut State, name: &str, id: ResourceId) -> u32 {
-        if let Some(index) = state.current.resources.get(name) {
-            return *index;
+        // At the top level the same resource import can be requested more than once. Inside
+        // a component type every import name is encoded exactly once, and the resource map
+        // (keyed by the name of the resource, not of the import) cannot tell whether `name`
+        // has been imported: `use a.{r as x}; use a.{r};` imports both `x` and `r`.
+        if state.scopes.is_empty() {
+            if let Some(index) = state.current.resources.get(name) {
+                return *index;
+            }
         }
 
         log::debug!("encoding import of resource `{name}`");
